@@ -79,6 +79,24 @@ def run_harness(ck, harness, text, timeout=2400):
     return p
 
 
+def lean_checked(ck, props):
+    """ck.lean, with a guard: when the build reports success but the theorems could not be audited (an
+    olean rebuilt or removed concurrently by another lake process), retry once; if the audit is still
+    incomplete the result is marked as failed so that it is reported (never a silent pass)"""
+    import time
+    res = ck.lean(props, props)
+    if res.ok and (res.failed or not res.theorems):
+        time.sleep(30)
+        ck.lean_results.pop()
+        res = ck.lean(props, props)
+        if res.ok and (res.failed or not res.theorems):
+            res.ok = False
+            if not res.failed:
+                res.failed.append({"file": "audit", "line": 0, "theorem": None, "msg": "no theorem could be audited",
+                                   "is_prop": True})
+    return res
+
+
 def hx(x):
     return "%016x" % struct.unpack("<Q", struct.pack("<d", float(x)))[0]
 
